@@ -21,7 +21,7 @@ def fixed_table():
 def seeded_table():
     rows = ['| change | files | what it does (trigger) | caught by | how |', '|---|---|---|---|---|']
     tot = det = conc = 0
-    for mp in sorted((VERIF / 'seeded').glob('C*/m*/meta.json')):
+    for mp in sorted((VERIF / 'seeded').glob('C*-m*/meta.json')):
         m = json.loads(mp.read_text())
         desc = ' '.join(m.get('description', '').split())
         desc = (desc[:230] + '...') if len(desc) > 230 else desc
